@@ -951,6 +951,8 @@ class Discharger:
                 rv = s["rv"]
                 ty = rv.get("lty")
                 c = mir.const_int(rv["r"])
+                if rv["op"] == "AddWithOverflow" and c is None and mir.const_int(rv["l"]) == 1:
+                    c = 1                           # `1 + n`
                 if rv["op"] == "AddWithOverflow" and c == 1 and ty == "usize":
                     return (True, "D-interval", "usize counter incremented by one: bounded by a container or recursion depth already in memory")
                 if rv["op"] == "SubWithOverflow" and c is not None and c >= 1 and ty in ("usize", "u32", "u64", "u8", "u16") and \
